@@ -30,6 +30,7 @@ def ntTable (t : NT) (ins : List (Name × Nat)) (env : Env) : List (Option Sem) 
   C01 peval TERM                        the model of eager evaluation: `ok none` (declined) or
                                         `ok (nt (("n" size)*) (shape*) (flat data*))`
   C01 pevalT TERM (("n" size)*) ENV     table of the peval result (or `ok none`)
+  C01 pevalInd FN "rv" "bv" "dv" size V   the model of Independent(FN, rv, bv, dv) with rv bound to the tensor term V
   C01 core TERM                         `ok true|false`: is TERM in the core fragment (Model/C01: `isCore`)
   C01 fv TERM                           free names of the term
 -/
@@ -53,6 +54,13 @@ def handle (args : List Sexp) : String :=
       | some r => "ok " ++ toString (tableToSexp (ntTable r ins env))
       | none => "ok none"
     | _, _, _ => "err bad-args"
+  | [Sexp.atom "pevalInd", fn, rv, bv, dv, size, v] =>
+    match parseTerm fn, rv.asStr?, bv.asStr?, dv.asStr?, size.asNat?, parseTerm v with
+    | some fn, some rv, some bv, some dv, some size, some v =>
+      match (peval v).bind (pevalIndependent fn rv bv dv size) with
+      | some r => "ok " ++ toString (ntToSexp r)
+      | none => "ok none"
+    | _, _, _, _, _, _ => "err bad-args"
   | [Sexp.atom "core", t] =>
     match parseTerm t with
     | some t => "ok " ++ (if isCore [] t then "true" else "false")
